@@ -111,7 +111,7 @@ CLAIMED = {
               "second; the recurrence output is the first N points (none for N <= 0) with C12's series theorems carried through. The model is "
               "compared with main(argv) run in-process (stdout/SystemExit captured) on every case, next to an implementation-side oracle "
               "(library API vs command line, first + d == second, total = seconds/unit), and malformed arguments in every slot."),
-        note=("Props/C19Code.v: the bodies of DateTimeOperator.__init__, date_parse, date_shift, date_format, date_diff, process_time_point_str and diff_time_point_strs are translated from /repo on every run (gen/GenCode11.v; parsers, dumper and arithmetic as parameters instantiated with the model's) and proved equal to the functions of Model/Cli.v. argparse, stdin, now/--ref, the time.strptime fallback for ctime formats, --as-total arithmetic, environment variables and the "
+        note=("Props/C19Code.v: the bodies of DateTimeOperator.__init__, date_parse, date_shift, date_format, date_diff, process_time_point_str and diff_time_point_strs (date_parse both without and with --parse-format) are translated from /repo on every run (gen/GenCode11.v; parsers, dumper and arithmetic as parameters instantiated with the model's) and proved equal to the functions of Model/Cli.v. argparse, stdin, now/--ref, the time.strptime fallback for ctime formats, --as-total arithmetic, environment variables and the "
               "exit-status/message mapping are outside the model (the correspondence exercises --calendar, --utc, --max, --offset, "
               "--print-format, ISODATETIMECALENDAR through the real main). A shift smaller than the printed precision is invisible in the "
               "output: the theorems state the output as the dump of the shifted point, not that it parses back to it."),
